@@ -276,6 +276,15 @@ def open_layout(lay, d):
         r = call(get_ephys_reader, p if n % 2 else [p], sample_rate=rate, dtype=dt if n % 3 else np.dtype('int8'), n_channels=nc)
         bounds = [0, n]
     elif be == 'array':
+        if (n + nc) % 4 == 2:
+            # the caller's array is column-major, or a strided view of a wider buffer (what it hands over is what is read, also
+            # after the caller has written into it)
+            if n % 2:
+                A = np.asfortranarray(A)
+            else:
+                wide = np.zeros((n, 2 * nc), dtype=A.dtype)
+                wide[:, ::2] = A
+                A = wide[:, ::2]
         r = call(get_ephys_reader, A, sample_rate=rate) if n % 2 else call(get_ephys_reader, A, sample_rate=rate, dtype=np.dtype('uint8'))
         bounds = [0, n]
     else:
@@ -383,6 +392,10 @@ def _run(case, ctx, d):
         return
     rd = r.value
     lists = be != 'cbin'
+    if be == 'array' and not A.flags.c_contiguous and A.flags.writeable and n >= 2:
+        # the owner of the array goes on writing into it after the reader exists (an acquisition buffer): reads show the array as it is
+        A[::2] = A[::2][:, ::-1].copy()
+        ctx.cell('array', 'edited_after_open')
     monitors.CURRENT.readers.register(rd, lambda A=A: A, allow_list=lists, label=be)
     # attributes
     att = call(lambda: (tuple(rd.shape), rd.n_samples, rd.n_channels, np.dtype(rd.dtype), rd.duration))
